@@ -497,6 +497,7 @@ type Sys struct {
 	OnRecord func(r *sim.Record, op *Op)
 	// statusRestored: the history overwrote the status from elsewhere (observedGeneration may stay ahead)
 	statusRestored bool
+	foreignObs     int64
 	// queueBurst: how many queued reconciles one closing round may run (0 = 64)
 	queueBurst int
 	// RemovedClaims: claims the user (not the controller) deleted during the history
@@ -960,6 +961,7 @@ func (s *Sys) envOp(k, a, b int) {
 			}
 			c.Put(st)
 			s.statusRestored = true
+			s.foreignObs = st.Status.ObservedGeneration
 			s.logf("status overwritten from elsewhere: observedGeneration=%d (generation %d) replicas=%d", st.Status.ObservedGeneration, st.Generation, st.Status.Replicas)
 		}
 	case OpPauseSeen:
